@@ -171,7 +171,7 @@ Eval(e, env) ==
   CASE e.k = "int"  -> I(e.v)
     [] e.k = "real" -> Q(e.n, e.d)
     [] e.k = "log"  -> L(e.v)
-    [] e.k = "var"  -> env[e.name]
+    [] e.k = "var"  -> IF e.name \in DOMAIN env THEN env[e.name] ELSE UF(e.name, <<>>)   \* other names: uninterpreted
     [] e.k = "sum"  -> FoldAdd(EvalSeq(e.c, env), Len(e.c))
     [] e.k = "prod" -> FoldMul(EvalSeq(e.c, env), Len(e.c))
     [] e.k = "quot" -> DivV(Eval(e.c[1], env), Eval(e.c[2], env))
